@@ -264,6 +264,8 @@ func main() {
 	}
 
 	objStreamLimit(r)
+	rowGuard(r)
+	rowBombs(r)
 	bombs(r)
 	readerBomb(r)
 	structureBombs(r)
@@ -338,6 +340,196 @@ func objStreamLimit(r *vh.Run) {
 					r.OracleOK()
 				}
 			})
+		}
+	}
+}
+
+// rowGuard: K on the predictor row pre-check of flate.decodePostProcess, per (predictor, colors, bpc, columns,
+// limit, maxLen) on small numbers; "-" = entry absent from /DecodeParms.
+func rowGuard(r *vh.Run) {
+	opt := func(v int) string {
+		if v == absent {
+			return "-"
+		}
+		return vh.Int(int64(v))
+	}
+	preds := []int{absent, 0, 1, 2, 3, 9, 10, 11, 12, 13, 14, 15, 16}
+	cols := []int{absent, 0, -1, 1, 2, 7, 8, 9, 100, 101}
+	colorsL := []int{absent, 0, 1, 3, 4}
+	bpcs := []int{absent, 1, 2, 4, 8, 16, 3}
+	lims := []int64{0, 1, 2, 5, 9, 10, 13, 100, 101, -1}
+	maxLens := []int64{-1, 0, 1, 5, 100}
+	for _, p := range preds {
+		for _, col := range cols {
+			for _, c := range colorsL {
+				for _, b := range bpcs {
+					for _, lim := range lims {
+						for _, ml := range maxLens {
+							if r.Rand.Intn(r.Pick(14, 2)) != 0 {
+								continue
+							}
+							parms := map[string]int{}
+							set := func(k string, v int) {
+								if v != absent {
+									parms[k] = v
+								}
+							}
+							set("Predictor", p)
+							set("Columns", col)
+							set("Colors", c)
+							set("BitsPerComponent", b)
+							in := map[string]any{"fn": "flate.decodePostProcess", "parms": parms, "MaxDecodeBytes": lim, "maxLen": ml}
+							guard(r, "decodePostProcess", in, func() {
+								// effective parameters, as flate.parameters defaults them
+								ec, eb, ecol := c, b, col
+								if ec == absent {
+									ec = 1
+								}
+								if eb == absent {
+									eb = 8
+								}
+								if ecol == absent {
+									ecol = 1
+								}
+								rs, rl, _, perr := filter.VerifC09PredictorRowParams(p, ec, eb, ecol)
+								passthru := p == absent || p == 1
+								feed := int64(0)
+								switch {
+								case passthru && ml > 0:
+									feed = ml
+								case !passthru && perr == nil && rl > 0 && rl < 1<<20:
+									feed = int64(rl) // exactly one row
+								}
+								n, err := filter.VerifC09FlatePostProcess(parms, lim, &zeroReader{feed}, ml)
+								var res string
+								switch {
+								case errors.Is(err, filter.ErrDecodeLimitExceeded):
+									res = "limit"
+								case err != nil:
+									res = "err"
+								case passthru:
+									res = "passthru"
+								default:
+									res = "alloc:" + vh.Int(int64(rs)) + ":" + vh.Int(int64(rl))
+								}
+								r.Case("rowGuard", []string{vh.Int(lim), opt(p), opt(c), opt(b), opt(col), vh.Int(ml)}, res)
+								eff := lim
+								if lim == 0 {
+									eff = filter.DefaultMaxDecodeBytes
+								}
+								if err == nil && !passthru && eff >= 0 && int64(rl) > eff {
+									r.OracleFail("predictor-row-exceeds-limit", in, fmt.Sprintf("row buffers of %d bytes allocated under limit %d (%d bytes produced)", rl, eff, n))
+								} else {
+									r.OracleOK()
+								}
+							})
+						}
+					}
+				}
+			}
+		}
+	}
+}
+
+const absent = math.MinInt32
+
+var rowCache = map[int64][]byte{}
+
+// flateZeros returns the zlib encoding of n zero bytes (streamed, cached).
+func flateZeros(n int64) []byte {
+	if b, ok := rowCache[n]; ok {
+		return b
+	}
+	var z bytes.Buffer
+	zw := zlib.NewWriter(&z)
+	io.Copy(zw, &zeroReader{n})
+	zw.Close()
+	rowCache[n] = z.Bytes()
+	return z.Bytes()
+}
+
+// rowBombs: FlateDecode streams whose predictor ROW — not whose output — exceeds the decode limit, through
+// filter.DecodeLength and StreamDict.DecodeLengthWithLimit in both decode modes (full: maxLen -1, partial:
+// maxLen >= 0).  Expected: the limit error, and never more than c*limit + slack bytes allocated.
+func rowBombs(r *vh.Run) {
+	type variant struct{ colors, bpc int }
+	variants := []variant{{1, 8}, {3, 8}, {1, 16}, {4, 1}}
+	for _, lim := range []int64{64 << 10, 1 << 20} {
+		preds := []int{2, 10, 11, 12, 13, 14, 15}
+		if !r.Thorough() {
+			preds = []int{2, 12, 15, 10 + r.Rand.Intn(5)}
+			variants = []variant{{1, 8}, variants[1+r.Rand.Intn(3)]}
+		}
+		for _, pred := range preds {
+			for vi, v := range variants {
+				bytesPerCol := func(cols int64) int64 { return (cols*int64(v.colors)*int64(v.bpc) + 7) / 8 }
+				colsFor := func(rowBytes int64) int64 { return rowBytes * 8 / int64(v.colors*v.bpc) }
+				colsL := []int64{colsFor(lim / 2), colsFor(lim - 1), colsFor(lim), colsFor(lim + 1)}
+				if vi == 0 && (pred == 12 || pred == 2 || r.Thorough()) {
+					colsL = append(colsL, 64<<20)
+				}
+				for _, cols := range colsL {
+					rowSize := bytesPerCol(cols)
+					rowLen := rowSize
+					if pred != 2 {
+						rowLen++
+					}
+					enc := flateZeros(rowLen) // one row, PNG row filter byte 0 / TIFF zero deltas
+					for _, ml := range []int64{-1, 0, 16, lim} {
+						parms := map[string]int{"Predictor": pred, "Columns": int(cols), "Colors": v.colors, "BitsPerComponent": v.bpc}
+						for _, via := range []string{"filter.DecodeLength", "StreamDict.DecodeLengthWithLimit"} {
+							in := map[string]any{"via": via, "parms": parms, "row_bytes": rowLen, "MaxDecodeBytes": lim, "maxLen": ml, "encoded_bytes": len(enc)}
+							guard(r, "row-bomb", in, func() {
+								var ms0, ms1 runtime.MemStats
+								runtime.ReadMemStats(&ms0)
+								var err error
+								var got int
+								if via == "filter.DecodeLength" {
+									f, ferr := filter.NewFilter(filter.Flate, parms, lim)
+									if ferr != nil {
+										return
+									}
+									var rd io.Reader
+									rd, err = f.DecodeLength(bytes.NewReader(enc), ml)
+									if err == nil && rd != nil {
+										n, _ := io.Copy(io.Discard, rd)
+										got = int(n)
+									}
+								} else {
+									d := types.NewDict()
+									dp := types.NewDict()
+									for k, val := range parms {
+										dp[k] = types.Integer(val)
+									}
+									sd := types.NewStreamDict(d, 0, nil, nil, []types.PDFFilter{{Name: filter.Flate, DecodeParms: dp}})
+									sd.Raw = enc
+									var b []byte
+									b, err = sd.DecodeLengthWithLimit(ml, lim)
+									got = len(b)
+								}
+								runtime.ReadMemStats(&ms1)
+								grown := int64(ms1.TotalAlloc - ms0.TotalAlloc)
+								in["allocated"] = grown
+								mode := "full"
+								if ml >= 0 {
+									mode = "partial"
+								}
+								switch {
+								case rowLen > lim && !errors.Is(err, filter.ErrDecodeLimitExceeded):
+									r.OracleFail("row-bomb-not-rejected:"+mode, in, fmt.Sprintf("row of %d bytes under limit %d: err=%v, %d bytes produced, %d bytes allocated", rowLen, lim, err, got, grown))
+								case grown > 8*lim+(2<<20):
+									r.OracleFail("row-bomb-allocates:"+mode, in, fmt.Sprintf("%d bytes allocated under limit %d (row %d bytes), err=%v", grown, lim, rowLen, err))
+								case rowLen <= lim && errors.Is(err, filter.ErrDecodeLimitExceeded) && !(ml < 0 && rowSize > lim):
+									r.OracleFail("row-rejected-below-limit:"+mode, in, fmt.Sprintf("row of %d bytes under limit %d: %v", rowLen, lim, err))
+								default:
+									r.OracleOK()
+								}
+								r.Count("row-bomb:" + mode)
+							})
+						}
+					}
+				}
+			}
 		}
 	}
 }
@@ -452,6 +644,56 @@ func genStructureBomb(objPad, xrefPad int) []byte {
 	return w.Bytes()
 }
 
+// genRowObjStm: like genStructureBomb, but the object stream declares /DecodeParms << /Predictor pred
+// /Columns columns >> and its content is ONE predictor row (PNG row filter byte 0, then the prolog and the
+// three objects padded with blanks to `columns` bytes): small decoded output per row count, huge ROW.
+func genRowObjStm(pred, columns int) []byte {
+	o3 := "<</Type/Catalog/Pages 4 0 R>> "
+	o4 := "<</Type/Pages/Kids[5 0 R]/Count 1>> "
+	o5 := "<</Type/Page/Parent 4 0 R/MediaBox[0 0 10 10]>>"
+	prolog := fmt.Sprintf("3 0 4 %d 5 %d ", len(o3), len(o3)+len(o4))
+	content := prolog + o3 + o4 + o5
+	var z bytes.Buffer
+	zw := zlib.NewWriter(&z)
+	if pred != 2 {
+		zw.Write([]byte{0})
+	}
+	zw.Write([]byte(content))
+	blanks := bytes.Repeat([]byte{' '}, 1<<16)
+	for left := columns - len(content); left > 0; {
+		n := len(blanks)
+		if left < n {
+			n = left
+		}
+		zw.Write(blanks[:n])
+		left -= n
+	}
+	zw.Close()
+	zc := z.Bytes()
+	var w bytes.Buffer
+	w.WriteString("%PDF-1.7\n%\xe2\xe3\xcf\xd3\n")
+	off1 := w.Len()
+	fmt.Fprintf(&w, "1 0 obj\n<</Type/ObjStm/N 3/First %d/Length %d/Filter/FlateDecode/DecodeParms<</Predictor %d/Columns %d>>>>\nstream\n", len(prolog), len(zc), pred, columns)
+	w.Write(zc)
+	w.WriteString("\nendstream\nendobj\n")
+	off2 := w.Len()
+	be := func(t byte, a int, b int) []byte {
+		return []byte{t, byte(a >> 24), byte(a >> 16), byte(a >> 8), byte(a), byte(b >> 8), byte(b)}
+	}
+	var data []byte
+	data = append(data, be(0, 0, 0xffff)...)
+	data = append(data, be(1, off1, 0)...)
+	data = append(data, be(1, off2, 0)...)
+	data = append(data, be(2, 1, 0)...)
+	data = append(data, be(2, 1, 1)...)
+	data = append(data, be(2, 1, 2)...)
+	zx := flate(data)
+	fmt.Fprintf(&w, "2 0 obj\n<</Type/XRef/Size 6/W[1 4 2]/Root 3 0 R/Length %d/Filter/FlateDecode>>\nstream\n", len(zx))
+	w.Write(zx)
+	fmt.Fprintf(&w, "\nendstream\nendobj\nstartxref\n%d\n%%%%EOF\n", off2)
+	return w.Bytes()
+}
+
 func structureBombs(r *vh.Run) {
 	exe, err := os.Executable()
 	if err != nil {
@@ -464,11 +706,19 @@ func structureBombs(r *vh.Run) {
 	}
 	big := r.Pick(6<<20, 48<<20)
 	// "none" runs first: its allocation under each limit is the baseline for "was the bomb materialised?"
-	bombsL := []bomb{{"none", 0, 0}, {"objstm", big, 0}, {"xrefstm", 0, big}, {"objstm", 200 << 10, 0}, {"xrefstm", 0, 200 << 10}}
+	bombsL := []bomb{{"none", 0, 0}, {"objstm", big, 0}, {"xrefstm", 0, big}, {"objstm", 200 << 10, 0}, {"xrefstm", 0, 200 << 10},
+		// predictor ROW bombs in an object stream reached through type-2 xref entries: objPad = /Columns
+		{"objstm-row-12", 64 << 20, 0}, {"objstm-row-12", 1<<20 - 1, 0}, {"objstm-row-12", 1 << 20, 0}, {"objstm-row-15", 8 << 20, 0}, {"objstm-row-2", 64 << 20, 0}}
 	base := map[int64]int64{}
 	limits := []int64{16 << 10, 64 << 10, 1 << 20, 512 << 20}
 	for _, bm := range bombsL {
 		doc := genStructureBomb(bm.objPad, bm.xrefPad)
+		rowBomb := strings.HasPrefix(bm.name, "objstm-row-")
+		if rowBomb {
+			var pred int
+			fmt.Sscanf(bm.name, "objstm-row-%d", &pred)
+			doc = genRowObjStm(pred, bm.objPad)
+		}
 		path := filepath.Join(r.Dir, fmt.Sprintf("bomb-%s-%d.pdf", bm.name, bm.objPad+bm.xrefPad))
 		if err := os.WriteFile(path, doc, 0o644); err != nil {
 			continue
@@ -512,6 +762,26 @@ func structureBombs(r *vh.Run) {
 			materialised := decoded >= 4<<20 && decoded > 8*lim && int64(rep.TotalAlloc) >= base[lim]+decoded
 			if bm.name == "xrefstm" && decoded > lim && rep.Err == "" {
 				materialised = true
+			}
+			if rowBomb {
+				rowLen := int64(bm.objPad)
+				if bm.name != "objstm-row-2" {
+					rowLen++
+				}
+				in["row_bytes"] = rowLen
+				switch {
+				case rep.Panic != "":
+					r.OracleFail("panic:structure-bomb", in, rep.Panic)
+				case rowLen > lim && !rep.LimitErr:
+					r.OracleFail("objstm-row-bomb-not-rejected", in, fmt.Sprintf("object stream with a predictor row of %d bytes read under MaxDecodeBytes = %d: err=%q, %d bytes allocated", rowLen, lim, rep.Err, rep.TotalAlloc))
+				case int64(rep.TotalAlloc) > base[lim]+8*lim+(4<<20) && rowLen > lim:
+					r.OracleFail("objstm-row-bomb-allocates", in, fmt.Sprintf("%d bytes allocated (baseline %d) under MaxDecodeBytes = %d, row %d bytes", rep.TotalAlloc, base[lim], lim, rowLen))
+				case rowLen <= lim/2 && rep.Err != "" && bm.name != "objstm-row-2": // (the TIFF document's content is not delta-encoded)
+					r.OracleFail("objstm-row-rejected-below-limit", in, rep.Err)
+				default:
+					r.OracleOK()
+				}
+				continue
 			}
 			switch {
 			case rep.Panic != "":
